@@ -21,7 +21,8 @@ CURRENT_IT = [None]
 def run(ctx):
     mdl = ctx.model
     ctx.assume('polyroots01 returns the real roots in [0,1] of the polynomial it is given (C19 decides its structure, numpy its numerics)')
-    ctx.rule('R13.1', 'bezier_radialrange: polynomial == d/dt |B(t)-z|^2; candidates {0, 1} + roots; (distance, t) pairs; min/max by distance', 2)
+    ctx.rule('R13.1', 'bezier_radialrange: polynomial == d/dt |B(t)-z|^2; candidates {0, 1} + roots; (distance, t) pairs; min/max by distance; '
+                      'also for query points level with / straight above the start point (a coordinate polynomial with a vanishing constant term)', 6)
     ctx.rule('R13.2', 'Line.radialrange: the closed-form t is the critical point of |p0 + t d - z|^2; decision table = clamp / farther end', 1)
     ctx.rule('R13.3', 'Path.radialrange: arg-min / arg-max fold is correct on every weak ordering of three segments (values touched only through '
                       'comparisons) and appends the index of the same iteration', 1)
@@ -30,8 +31,10 @@ def run(ctx):
 
     # ---------------------------------------------------------------- R13.1
     fr = mdl.func('path.bezier_radialrange')
-    for cname, n in (('QuadraticBezier', 3), ('CubicBezier', 4)):
+    for cname, n, zkind in [(c, n, zk) for c, n in (('QuadraticBezier', 3), ('CubicBezier', 4)) for zk in ('general', 'level with the start', 'above the start')]:
         seen = {}
+        P0_ = cpoints(n)[0]
+        Zq = {'general': Z, 'level with the start': Rat.sym('zr') + I * P0_.imag(), 'above the start': P0_.real() + I * Rat.sym('zi')}[zkind]
 
         def pr01(it, a, k, seen=seen):
             seen['poly'] = a[0]
@@ -42,15 +45,15 @@ def run(ctx):
                 return (tag, it.iterate(a[0]), k.get('key'))
             return h
 
-        def th(it, cname=cname, n=n, seen=seen):
+        def th(it, cname=cname, n=n, seen=seen, Zq=Zq):
             seen.clear()
             CURRENT_IT[0] = it
             P = cpoints(n)
             seg = it.construct('path.' + cname, *P)
-            r = it.call_method(seg, 'radialrange', Z)
+            r = it.call_method(seg, 'radialrange', Zq)
             return r, dict(seen), P
 
-        def judge(v):
+        def judge(v, Z=Zq):
             r, seen, P = v
             B = lambda x: bernstein(P, x)
             if len(r) != 2 or r[0][0] != 'min' or r[1][0] != 'max':
@@ -80,7 +83,7 @@ def run(ctx):
                 if got != exp:
                     probs.append('%s candidates are not {(|B(t)-z|, t) : t in 0, 1, roots}' % tag)
             return not probs, '; '.join(probs)
-        ob('R13.1').run(fr, '%s.radialrange(z) via bezier_radialrange' % cname, th, judge,
+        ob('R13.1').run(fr, '%s.radialrange(z) via bezier_radialrange, z %s' % (cname, zkind), th, judge,
                         opts={'call_hooks': {'polytools.polyroots01': pr01}, 'ext_hooks': {'builtins.min': mmh('min'), 'builtins.max': mmh('max')}})
 
     # ---------------------------------------------------------------- R13.2
